@@ -150,6 +150,13 @@ DISABLED = set(p for p in CHECKS if p not in ('C02','C05','C12','C13','C19','C20
 
 # sentences appended to the level text: theorems and monitor clauses added after the seeded-change rounds
 EXTRA = {
+ "C18": " The process has a past (every session key was used once by an instance without forceHTTPS) and histories reload the deployment with forceHTTPS flipped: cookies follow the configuration valid now.",
+ "C15": " Segments: the provider moves its authorization endpoint under the same issuer; standard authorization errors arrive while a login from a hostile URI is pending.",
+ "C14": " Histories include another application (client ID) of the same provider built in the same process, ordinary session requests between revocation and verification, and tokens that expire in the year 2286 and beyond.",
+ "C11": " Segments: the provider moves, drops or introduces its end-session endpoint; after the instances' metadata refresh a logout uses what is published now.",
+ "C06": " Segments: the deployment is reloaded with other allow-lists; sessions issued before are judged by the lists valid now. A third of all tokens carry provider-flavoured extra claims naming another identity / namespaced roles.",
+ "C02": " Every verdict is preceded by unrelated refused tokens with a complete claim set (nothing of them may reach the next token); ECDSA signatures also as ASN.1 DER.",
+ "C01": " Histories have segments: the provider rotates its signing key and the instances pick up the new key set (reload, or the cached set runs out); sessions signed with the retired key are not forwarded any more. Gate probes carry proxy routing headers and run under post-logout targets whose path is `/`.",
  "C03": " State and nonce values of one deployment are also compared with each other: two login redirects whose values agree in half of their positions raise a flag (structured, predictable values). C03_initiation_monitor: every response that redirects to the authorization endpoint stores, in a cookie that is set (not deleted), exactly the state / nonce / verifier its URL shows (boolean monitor applied to every observed response).",
  "C04": " C04_completion_step: a response that completes a login (callback 302 to a local path after a successful exchange) or a forwarded refresh stores, in that very response, the authenticated main cookie and the ID token obtained.",
  "C05": " A fifth supporting run puts the provider's token endpoint behind a gateway that answers through redirects and keeps each transaction in a cookie, and overlaps the code exchanges and refreshes of ten browsers: each must get its own answer. A third supporting run overlaps two browsers' refreshing requests with one slow JWKS fetch after the key set expired and was dropped by the cleanup tick; a fourth (no race detector) runs the metadata refresh loop body in a tight loop against login redirects, callbacks and authenticated requests under a deadlock watchdog.",
